@@ -22,6 +22,10 @@ class Module:
         """-> list of dict(name, module, wrapper (text of a wrapper module or None), cfg, workers, expect_violation=None)"""
         return []
 
+    def prepare(self, prop, tier, sd, sc):
+        """optional: generate scenario files with TLC before recording; -> (states, transitions)"""
+        return 0, 0
+
     def recordings(self, prop, tier, sd):
         """-> list of (name, driver args without -out)"""
         return []
@@ -81,6 +85,9 @@ def run(mod, prop, tier, replay=None, dev=False):
                     mc_states += dist
                     mc_trans += gen
                 mc_names[name] = {"distinct_states": dist, "states_generated": gen, "negative_control": neg}
+            ps, pt = mod.prepare(prop, tier, sd, sc)
+            mc_states += ps
+            mc_trans += pt
             recs = mod.recordings(prop, tier, sd)
             log("[%s] recording %d sessions of the real code" % (prop, len(recs)))
 
